@@ -456,6 +456,13 @@ t_dtouch(void *a)
 	}
 	return NULL;
 }
+static void *
+t_downer(void *a)
+{
+	int *rv = a;
+	*rv     = nng_socket_close(d_obj == D_DIALER ? PEER : S);
+	return NULL;
+}
 static void
 run_double(void *arg)
 {
@@ -482,29 +489,42 @@ run_double(void *arg)
 		vh_fini();
 		return;
 	}
-	int second = vs_choose(VK_ENV, 2); // 0: a second close, 1: a short call on the handle
+	int second = vs_choose(VK_ENV, 3); // 0: a second close, 1: a short call on the handle, 2: the owning socket is closed
 	int r1 = -1, r2 = -1;
 	pthread_t t1, t2;
 	vs_window(1);
 	pthread_create(&t1, NULL, t_dclose, &r1);
-	pthread_create(&t2, NULL, second ? t_dtouch : t_dclose, &r2);
+	pthread_create(&t2, NULL, second == 2 ? t_downer : second ? t_dtouch : t_dclose, &r2);
 	pthread_join(t1, NULL);
 	pthread_join(t2, NULL);
 	vs_window(0);
 	vs_settle();
 	int ok1 = r1 == 0 || r1 == NNG_ECLOSED || r1 == NNG_ENOENT;
 	int ok2 = r2 == 0 || r2 == NNG_ECLOSED || r2 == NNG_ENOENT;
-	if (!ok1 || !ok2 || (r1 != 0 && (second || r2 != 0)))
+	if (second == 2) {
+		// the socket's close must succeed; the handle's own close may have lost the race
+		if (r2 != 0 || !ok1)
+			vs_fail("C10:close-result",
+			    "%s: %s close racing the close of its socket: results %d (handle) and %d "
+			    "(socket)",
+			    P[p].name, DN[d_obj], r1, r2);
+	} else if (!ok1 || !ok2 || (r1 != 0 && (second || r2 != 0)))
 		vs_fail("C10:close-result",
 		    "%s: %s closed by two threads at once: results %d and %d (%s)",
 		    P[p].name, DN[d_obj], r1, r2, second ? "close + option call" : "two closes");
 	int r3 = -1;
 	t_dclose(&r3);
 	dead(DN[d_obj], r3);
-	vs_outcome("%s %s r=%d/%d", DN[d_obj], second ? "touch" : "close", r1, r2);
+	vs_outcome("%s %s r=%d/%d", DN[d_obj], second == 2 ? "owner" : second ? "touch" : "close", r1, r2);
 	// a leaked reference shows here: the owner's close waits for the object for ever
 	int rp = nng_socket_close(PEER);
 	int rs = nng_socket_close(S);
+	if (second == 2) { // one of them is closed already
+		if (d_obj == D_DIALER)
+			rp = rp == NNG_ECLOSED ? 0 : (rp ? rp : -1);
+		else
+			rs = rs == NNG_ECLOSED ? 0 : (rs ? rs : -1);
+	}
 	if (rp != 0 || rs != 0)
 		vs_fail("C10:close-result", "%s: socket closes after a double %s close -> %d, %d",
 		    P[p].name, DN[d_obj], rp, rs);
